@@ -62,6 +62,10 @@ NEEDS = {
  "agent6-M4": ("C03", "the five T_i identity checks merged into one that uses all() instead of any()", "adversarial prover whose T_i is the identity while relations (b) and (c) hold (t_i = 0 and tau_i = 0)"),
  "agent6-M5": ("C05", "verifier's flattening reuses the previous term's product when the coefficient has the same low 64 bits", "adjacent terms whose coefficients differ by a multiple of 2^64, deviation on the second"),
  "agent6-M6": ("C17", "increase_capacity with a smaller request lowers the recorded gens_capacity (tables keep their length)", "non-monotone capacity requests; then a circuit between the two capacities, or a later increase"),
+ "agent7-N1": ("C07", "batch_verify checks cofactor * MSM == 0 (cofactored equation) while verify stays uncofactored", "curve25519 only AND a statement point (Pedersen base / generator) that carries a small-order component - outside the claimed scope (DESIGN 8.7): the unmodified verdict is itself probabilistic (~1/8) there, so no sound equivalence oracle exists"),
+ "agent7-N2": ("C01", "t_2 blinding: zero weights filtered out BEFORE zipping with the blinding factors, so later weights pair with earlier blindings", "a commitment with zero weight (unreferenced, or cancelling coefficients) before one with non-zero weight"),
+ "agent7-N3": ("C01", "FrExp::nth fast path (k >= 128) does not advance past the returned power; the prover's padding loop now uses skip(n)", ">= 128 gates and >= 2 padded positions"),
+ "agent7-N4": ("C08", "the |R| != |L| guard is wrapped in cfg!(feature = \"verif-hooks\"): present only in builds with the harness guard ON", "the crate built WITHOUT the hook feature (what users link) and a decodable proof with |R| != |L|"),
 }
 for d in sorted(glob.glob('/verif/seeded/*/')):
     name=os.path.basename(d.rstrip('/'))
